@@ -1,13 +1,14 @@
 from collections import defaultdict
+from copy import copy
 from functools import wraps
 from inspect import Parameter, isgeneratorfunction, signature
-from itertools import chain
 from types import MethodType
 from typing import (
     AbstractSet,
     Any,
     Callable,
     Collection,
+    Dict,
     Iterable,
     List,
     Mapping,
@@ -40,9 +41,11 @@ _validators: MutableMapping[Type, List["Validator"]] = CacheAwareDict(defaultdic
 
 
 def get_validators(tp: AnyType) -> Sequence["Validator"]:
-    return list(
-        chain.from_iterable(_validators[cls] for cls in getattr(tp, "__mro__", [tp]))
-    )
+    return [
+        validator.for_class(tp)
+        for cls in getattr(tp, "__mro__", [tp])
+        for validator in _validators[cls]
+    ]
 
 
 class Discard(Exception):
@@ -67,6 +70,7 @@ class Validator:
         else:
             self.discard = discard
         self.dependencies: AbstractSet[str] = set()
+        self._by_class: Dict[type, "Validator"] = {}
         try:
             parameters = signature(func).parameters
         except ValueError:
@@ -93,6 +97,21 @@ class Validator:
 
     def __get__(self, instance, owner):
         return self if instance is None else MethodType(self.func, instance)
+
+    def for_class(self, cls: AnyType) -> "Validator":
+        """Dependencies of an inherited validator go through the methods of the
+        subclass, which can override the ones of the owner."""
+        if not isinstance(cls, type) or cls is getattr(self, "owner", cls):
+            return self
+        if cls not in self._by_class:
+            dependencies = find_all_dependencies(cls, self.func) | self.params
+            if dependencies == self.dependencies:
+                self._by_class[cls] = self
+            else:
+                bound = copy(self)
+                bound.dependencies = dependencies
+                self._by_class[cls] = bound
+        return self._by_class[cls]
 
     def __call__(self, *args, **kwargs):
         raise RuntimeError("Method __set_name__ has not been called")
